@@ -1318,6 +1318,38 @@ fn collect_all(case: &Value) {
     println!("{}", serde_json::to_string(&json!({"costs": costs, "pair": pair})).unwrap());
 }
 
+/// Phase step of the self-organising population (C08 / C19): a real `Rosomaxa` with three individuals, one generation tick
+/// with the statistics of the case, then `select()`.
+fn rosomaxa_phase(case: &Value) {
+    use rosomaxa::example::{VectorObjective, VectorRosomaxaContext, VectorSolution};
+    use rosomaxa::population::{Rosomaxa, RosomaxaConfig};
+    use rosomaxa::prelude::{Environment, HeuristicPopulation, HeuristicSpeed, HeuristicStatistics};
+    let f = |key: &str| f64::from_bits(case[key].as_u64().unwrap());
+    let objective = Arc::new(VectorObjective::new(Arc::new(|data: &[Float]| data.iter().sum()), Arc::new(|data: &[Float]| data.to_vec())));
+    let selection_size = case["selection_size"].as_u64().unwrap() as usize;
+    let mut config = RosomaxaConfig::new_with_defaults(selection_size);
+    config.initial_size = 4;
+    config.exploration_ratio = f("exploration_bits");
+    let mut population = Rosomaxa::new(VectorRosomaxaContext, objective.clone(), Arc::new(Environment::default()), config)
+        .unwrap_or_else(|e| setup_failed("cannot create the population", e));
+    for i in 0..3 {
+        population.add(VectorSolution::new_with_objective(vec![i as Float], objective.as_ref()));
+    }
+    let speed = match case["speed"].as_str().unwrap() {
+        "slow" => HeuristicSpeed::Slow { ratio: f("ratio_bits"), average: 1., median: None },
+        "moderate" => HeuristicSpeed::Moderate { average: 1., median: None },
+        _ => HeuristicSpeed::Unknown,
+    };
+    let statistics = HeuristicStatistics { generation: 7, termination_estimate: f("estimate_bits"), speed, ..HeuristicStatistics::default() };
+    let ticks = if case["phase"] == "exploitation" { 2 } else { 1 };
+    let mut selected = vec![];
+    for _ in 0..ticks {
+        population.on_generation(&statistics);
+        selected.push(population.select().count());
+    }
+    println!("{}", serde_json::to_string(&json!({"size": population.size(), "selected": selected, "phase": format!("{:?}", population.selection_phase())})).unwrap());
+}
+
 /// `Statistic + Statistic` through the public operator.
 fn statistic_sum(case: &Value) {
     use vrp_pragmatic::format::solution::{Statistic, Timing};
@@ -1373,6 +1405,9 @@ fn main() {
     }
     if case["kind"] == "group_state" {
         return group_state(&case);
+    }
+    if case["kind"] == "rosomaxa_phase" {
+        return rosomaxa_phase(&case);
     }
     if case["kind"] == "collect_all" {
         return collect_all(&case);
